@@ -43,6 +43,8 @@ const (
 	PLifecycleCycle
 	PLifecycleInFlight
 	PStopAtStatement
+	PTwinIDs
+	PChurnNoise
 )
 
 var ProbeNames = map[int]string{
@@ -67,10 +69,12 @@ var ProbeNames = map[int]string{
 	PStopWhileChanBlocked:  "stop_while_sut_task_blocked_on_channel",
 	PFlood:                 "burst_of_8_to_40_datagrams_from_one_client",
 	PTCPStalledPrefix:      "tcp_frame_prefix_split_across_the_read_timeout",
-	PJunk:                  "datagrams_announcing_more_questions_than_they_carry",
+	PJunk:                  "ill_formed_datagrams_between_well_formed_requests",
 	PLifecycleCycle:        "start_stop_cycle_without_traffic_after_stop",
 	PLifecycleInFlight:     "start_stop_cycle_with_requests_in_flight",
 	PStopAtStatement:       "stop_placed_at_an_exact_sut_statement_boundary",
+	PTwinIDs:               "two_clients_on_one_host_using_the_same_transaction_ids",
+	PChurnNoise:            "refused_two_record_registrations_between_churn_steps",
 }
 
 var scenarioNames = [...]string{"nbns-server", "nbns-udp+tcp", "llmnr-server", "llmnr-client", "llmnr-client+server", "nbns-challenger", "nbns-lifecycle"}
